@@ -96,8 +96,8 @@ struct Alphabet {
   }
 };
 // ops: 0..2 setAnchor(A_i); 3 reset; 4..6 toENU(geodetic G_j); 7..9 toENU(wgs84 G_j); 10..12 toENU(ecef of G_j); 13,14 toECEF(P_k); 15,16 toWGS84(P_k); 17 getters
-const int NOPS = 18;
-std::string opname(int op) { char b[48]; if (op < 3) snprintf(b, 48, "setAnchor(A%d)", op); else if (op == 3) snprintf(b, 48, "reset()"); else if (op < 7) snprintf(b, 48, "toENU(geodetic G%d)", op - 4); else if (op < 10) snprintf(b, 48, "toENU(wgs84 G%d)", op - 7); else if (op < 13) snprintf(b, 48, "toENU(ecef G%d)", op - 10); else if (op < 15) snprintf(b, 48, "toECEF(P%d)", op - 13); else if (op < 17) snprintf(b, 48, "toWGS84(P%d)", op - 15); else snprintf(b, 48, "getters"); return b; }
+const int NOPS = 20;   // 18: assign the converter to another long-lived converter and continue with that one; 19: continue with a copy-constructed converter
+std::string opname(int op) { char b[48]; if (op < 3) snprintf(b, 48, "setAnchor(A%d)", op); else if (op == 3) snprintf(b, 48, "reset()"); else if (op < 7) snprintf(b, 48, "toENU(geodetic G%d)", op - 4); else if (op < 10) snprintf(b, 48, "toENU(wgs84 G%d)", op - 7); else if (op < 13) snprintf(b, 48, "toENU(ecef G%d)", op - 10); else if (op < 15) snprintf(b, 48, "toECEF(P%d)", op - 13); else if (op < 17) snprintf(b, 48, "toWGS84(P%d)", op - 15); else if (op == 17) snprintf(b, 48, "getters"); else if (op == 18) snprintf(b, 48, "other = converter; use other"); else snprintf(b, 48, "use a copy-constructed converter"); return b; }
 
 void sequences(vf::Ctx& c, int depth, int init, int firstOp) {
   static Alphabet al;
@@ -106,7 +106,9 @@ void sequences(vf::Ctx& c, int depth, int init, int firstOp) {
   std::vector<int> seq(depth); seq[0] = firstOp;
   for (uint64_t k = 0; k < total; ++k) {
     uint64_t r = k; for (int i = 1; i < depth; ++i) { seq[i] = r % NOPS; r /= NOPS; }
-    ENUConverter conv = init ? ENUConverter(al.A[init - 1]) : ENUConverter();
+    std::unique_ptr<ENUConverter> cur(init ? new ENUConverter(al.A[init - 1]) : new ENUConverter()), other(new ENUConverter(al.A[1]));
+    other->toENU(al.G[2]);   // the other converter has a past of its own
+#define conv (*cur)
     Model m; if (init) { m.anchored = true; m.a = al.A[init - 1]; }
     for (int i = 0; i < depth; ++i) {
       int op = seq[i];
@@ -116,7 +118,9 @@ void sequences(vf::Ctx& c, int depth, int init, int firstOp) {
       auto params = [&]() { std::vector<std::string> h; h.push_back(init ? "ENUConverter(A" + std::to_string(init - 1) + ")" : "ENUConverter()"); for (int j = 0; j <= i; ++j) h.push_back(opname(seq[j])); return vf::JO().strs("history", h).done(); };
       bool ok = true;
       Eigen::Vector3d out(0, 0, 0); bool hasOut = false; L3 want(0, 0, 0);
-      if (op < 3) { conv.setAnchor(al.A[op]); m.anchored = true; m.a = al.A[op]; }
+      if (op == 18) { *other = *cur; std::swap(cur, other); }
+      else if (op == 19) { std::unique_ptr<ENUConverter> cp(new ENUConverter(*cur)); other = std::move(cur); cur = std::move(cp); }
+      else if (op < 3) { conv.setAnchor(al.A[op]); m.anchored = true; m.a = al.A[op]; }
       else if (op == 3) { conv.reset(); m.anchored = false; }
       else if (op < 7) {
         const GeodeticCoordinates& g = al.G[op - 4];
@@ -164,6 +168,7 @@ void sequences(vf::Ctx& c, int depth, int init, int firstOp) {
     if (c.want_sample() && k == total / 2) { std::vector<std::string> h; for (int j = 0; j < depth; ++j) h.push_back(opname(seq[j])); c.sample(vf::JO().i("initial_anchor", init).strs("sequence", h).done()); }
     if (c.c.violations > 30) return;
   }
+#undef conv
   c.states(statesAll.size());
   c.note_max("states_new_at_last_depth", (double)(statesAll.size() - statesShallow.size()));
 }
@@ -182,7 +187,7 @@ std::string vf_describe(const std::string& tier) {
   vf::JO o;
   o.u("anchors", anchors().size()).str("anchor_lattice", "lat {-85,-60,-30,-1e-6,0,33.3,45,60,85} deg x lon {-180,-179.999,-90,0,2.5,90,179.999,180} deg x h {-500,0,300,9000} m");
   o.str("local_points", "{0,+-1,+-100,+-1e4,+-1e5}^2 x {0,+-100,+-1e4} m");
-  o.i("sequence_depth", tier == "thorough" ? 5 : 4).str("sequence_ops", "18 operations (setAnchor x3, reset, toENU geodetic x3 / wgs84 x3 / ecef x3, toECEF x2, toWGS84 x2, getters) from 4 initial constructions; const conversions only when the model says anchored");
+  o.i("sequence_depth", tier == "thorough" ? 5 : 4).str("sequence_ops", "20 operations (setAnchor x3, reset, toENU geodetic x3 / wgs84 x3 / ecef x3, toECEF x2, toWGS84 x2, getters, assign to another long-lived converter and continue with it, continue with a copy-constructed converter) from 4 initial constructions; const conversions only when the model says anchored");
   o.str("oracle", "frame = (east,north,up) from the definition within 1e-12; conversions within 1e-6 m of the long-double reference; state after every step equals a fresh converter anchored at the model anchor (bitwise)");
   return o.done();
 }
